@@ -6,6 +6,13 @@ NOTE = {
     "C15-b": "— does not apply any more (conflicts with the F83 repair of `Filled`); caught by C15 quick before that repair",
     "C02-b": "— neutralised by the F27 repair (views of lazily transposed tensors are always flagged non-contiguous): its demonstration passes; caught by C02 quick before that repair",
     "C04-b": "— neutralised by the F27 repair: its demonstration passes; caught by C04 quick before that repair",
+    "C01-c": "— with the F36 repair (comparison results take the operand's data order) the repository's own tests (`TestNeScalar_assame`) fail under this change; caught by C01 quick before",
+    "C03-e": "— no longer applies (conflicts with the F28 repair); caught by C03 quick before that repair",
+    "C07-e": "— no longer applies (conflicts with the F32 repair); caught by C07 quick before that repair",
+    "C10-e": "— no longer applies (conflicts with the F67 repair); caught by C10 quick before that repair",
+    "C14-b": "— no longer applies (conflicts with the F79 repair); caught by C14 quick before that repair",
+    "C17-a": "— no longer applies (conflicts with the F32 repair); caught by C17 quick before that repair",
+    "C19-c": "— no longer applies (conflicts with the F68 repair of `BroadcastStrides`); caught by C19 quick before that repair",
     "C16-d": "— neutralised by the F121 repair (column-major operands of Stack go through their iterators): its demonstration passes; the strengthened C16 generator found F121 itself on the way",
 }
 rows = []
